@@ -201,6 +201,10 @@ R = {
     "R13": [F("f", ["a", "b"], ["c"]), F("g", ["a", "b", "c"], ["d"]), F("h", ["c", "d", "x"], ["e"])],
     "R14": [F("f", ["a"], ["b"]), F("g", ["b", "a"], ["c"]), F("h", ["c", "b"], ["d"]), F("k", ["d", "x"], ["e"])],
     "R15": [F("f", ["a"], ["b"]), F("g", ["b"], ["c"]), F("h", ["c", "a"], ["d"])],
+    "R16": [F("f", ["x"], ["a"]), F("g", ["a", "y"], ["b"], bound={"a": 1}), F("h", ["b", "a"], ["c"])],
+    "R17": [F("n", [], ["k"]), F("f", ["k", "a"], ["y"]), F("g", ["y", "b"], ["z"])],
+    "R18": [F("fm", ["x"], ["m"]), F("fb", ["m"], ["b"]), F("fk", ["u", "m"], ["k"], defaults={"m": 0}), F("fa", ["k", "b"], ["a"])],
+    "R19": [F("g", ["a"], ["y"]), F("f", ["a", "b"], ["z"], bound={"a": 100}), F("h", ["y", "z"], ["w"])],
     "R9": [F("f", ["a"], ["b"], bound={"a": 5}), F("g", ["b", "c"], ["d"], defaults={"c": 2}, bound={"c": 8}), F("h", ["d", "a"], ["e"])],
 }
 
